@@ -816,4 +816,392 @@ Proof.
       * right. apply Hkeep. exists s, dist, n. split; [apply (proj2 (proj2 Hg)); exact Hin|]. split; [lia | assumption].
 Qed.
 
+(* ---------- the audit flag only ever goes from true to false ---------- *)
+Lemma copy_zero_set_flag : forall qc zero ub ok ub' out,
+  copy_zero_set d au qc ub zero ok = (ub', out, true) -> ok = true.
+Proof.
+  intros qc zero. induction zero as [|e rest IH]; intros ub ok ub' out E.
+  - cbn [copy_zero_set] in E. now injection E.
+  - rewrite copy_zero_set_cons in E. destruct (keepz qc ub e).
+    + cbv zeta in E. destruct (copy_zero_set d au qc _ rest (ok && au true qc ub)) as [[ub2 out2] ok2] eqn:E2.
+      injection E as _ _ ->. apply IH in E2. apply andb_true_iff in E2. apply E2.
+    + apply IH in E. apply andb_true_iff in E. apply E.
+Qed.
+
+Lemma copy_slot_flag : forall qc s cover ub ok ub' out,
+  copy_slot d au qc ub s cover ok = (ub', out, true) -> ok = true.
+Proof.
+  intros qc s cover. induction cover as [|[es e] rest IH]; intros ub ok ub' out E.
+  - cbn [copy_slot] in E. now injection E.
+  - rewrite copy_slot_cons in E. destruct (Nat.eqb es s); [destruct (keepc qc ub e)|].
+    + cbv zeta in E. destruct (copy_slot d au qc _ s rest (ok && au true qc ub)) as [[ub2 out2] ok2] eqn:E2.
+      injection E as _ _ ->. apply IH in E2. apply andb_true_iff in E2. apply E2.
+    + apply IH in E. apply andb_true_iff in E. apply E.
+    + now apply IH in E.
+Qed.
+
+Lemma copy_cover_sets_flag : forall qc cover n s ub ok ub' out,
+  copy_cover_sets d au qc ub s n cover ok = (ub', out, true) -> ok = true.
+Proof.
+  intros qc cover n. induction n as [|n IH]; intros s ub ok ub' out E.
+  - cbn [copy_cover_sets] in E. now injection E.
+  - cbn [copy_cover_sets] in E.
+    destruct (copy_slot d au qc ub s cover ok) as [[ub1 out1] ok1] eqn:E1.
+    destruct (copy_cover_sets d au qc ub1 (S s) n cover ok1) as [[ub2 out2] ok2] eqn:E2.
+    injection E as _ _ ->. apply IH in E2. subst ok1. now apply copy_slot_flag in E1.
+Qed.
+
+Lemma bn_others_cons : forall bn ub zero chi l acc okk,
+  bn_others d K au bn ub zero (chi :: l) acc okk =
+  let nub := setter K (eadd (ub0 ub) (c_pard chi)) in
+  let '(nub1, nzero, ok1) := copy_zero_set d au chi nub zero okk in
+  let '(rows1, ok2) := bn chi nzero nub1 ok1 in
+  bn_others d K au bn ub zero l (acc ++ rows1) ok2.
+Proof. reflexivity. Qed.
+
+Definition bn_flag (bn : ctree -> list dnode -> list ext -> bool -> list row * bool) (chi : ctree) : Prop :=
+  forall z u o rows, bn chi z u o = (rows, true) -> o = true.
+
+Lemma bn_others_flag : forall bn ub zero l,
+  (forall chi, In chi l -> bn_flag bn chi) ->
+  forall acc okk rows, bn_others d K au bn ub zero l acc okk = (rows, true) -> okk = true.
+Proof.
+  intros bn ub zero l. induction l as [|chi l IH]; intros Hbn acc okk rows E.
+  - cbn in E. now injection E.
+  - rewrite bn_others_cons in E. cbv zeta in E.
+    destruct (copy_zero_set d au chi _ zero okk) as [[nub1 nzero] ok1] eqn:E1.
+    destruct (bn chi nzero nub1 ok1) as [rows1 ok2] eqn:E2.
+    apply IH in E; [|intros c Hc; apply Hbn; now right]. subst ok2.
+    apply (Hbn chi (or_introl eq_refl)) in E2. subst ok1. now apply copy_zero_set_flag in E1.
+Qed.
+
+Lemma brute_nearest_flag : forall n Q, (size Q <= n)%nat -> bn_flag (brute_nearest d K au) Q.
+Proof.
+  induction n as [|n IH]; intros Q Hs; [destruct Q; cbn [size] in Hs; lia|].
+  intros zero ub ok rows E. destruct Q as [p m pd sc ch]. destruct ch as [|c0 rest].
+  - cbn [brute_nearest] in E. injection E as _ E. apply andb_true_iff in E. apply E.
+  - cbn [brute_nearest] in E.
+    destruct (brute_nearest d K au c0 zero ub ok) as [rows0 ok0] eqn:E0.
+    cbn [size fold_right] in Hs.
+    assert (Hrest : forall chi, In chi rest -> bn_flag (fun c z u o => brute_nearest d K au c z u o) chi).
+    { intros chi Hc. apply IH.
+      assert (Hle : forall l, In chi l -> (size chi <= fold_right (fun c a => (size c + a)%nat) O l)%nat).
+      { induction l as [|a l IHl]; intros Hin; [destruct Hin|]. cbn [fold_right].
+        destruct Hin as [->|Hin]; [lia | specialize (IHl Hin); lia]. }
+      specialize (Hle rest Hc). lia. }
+    apply (bn_others_flag _ ub zero rest Hrest) in E. subst ok0.
+    apply (IH c0) in E0; [assumption | lia].
+Qed.
+
+(* ---------- brute_nearest ---------- *)
+Definition rows_ok (P : Z -> Prop) (rows : list row) : Prop :=
+  forall q' cands, In (q', cands) rows -> P q' /\ forall x, needed q' x -> In x cands.
+
+Definition below (Q : ctree) : Z -> Prop := fun q' => In q' (lp Q).
+Definition below_some (l : list ctree) : Z -> Prop := fun q' => exists chi, In chi l /\ In q' (lp chi).
+
+Lemma rows_ok_app : forall P r1 r2, rows_ok P r1 -> rows_ok P r2 -> rows_ok P (r1 ++ r2).
+Proof. intros P r1 r2 H1 H2 q' cands Hin. apply in_app_or in Hin. destruct Hin; [now apply H1 | now apply H2]. Qed.
+
+Lemma rows_ok_weaken : forall (P P' : Z -> Prop) r, (forall q, P q -> P' q) -> rows_ok P r -> rows_ok P' r.
+Proof. intros P P' r H Hr q' cands Hin. destruct (Hr q' cands Hin) as [H1 H2]. split; [now apply H | assumption]. Qed.
+
+Definition bn_good (bn : ctree -> list dnode -> list ext -> bool -> list row * bool) (chi : ctree) : Prop :=
+  forall z u o rows, bn chi z u o = (rows, true) -> zero_ok (c_p chi) z ->
+    (forall q' x, In q' (lp chi) -> needed q' x -> in_zero z x) -> rows_ok (below chi) rows.
+
+Lemma bn_others_spec : forall bn q ub zero l,
+  (forall chi, In chi l -> bn_flag bn chi /\ bn_good bn chi) ->
+  (forall chi, In chi l -> node_ok chi /\ dd d q (c_p chi) <= c_pard chi) -> dom q -> zero_ok q zero ->
+  (forall chi q' x, In chi l -> In q' (lp chi) -> needed q' x -> in_zero zero x) ->
+  forall acc okk rows, bn_others d K au bn ub zero l acc okk = (rows, true) ->
+  exists rows', rows = acc ++ rows' /\ rows_ok (below_some l) rows'.
+Proof.
+  intros bn q ub zero l. induction l as [|chi l IH]; intros Hbn Hf Hq Hz Hcov acc okk rows E.
+  - cbn in E. injection E as <- _. exists []. split; [now rewrite app_nil_r|]. intros q' cands [].
+  - rewrite bn_others_cons in E. cbv zeta in E.
+    destruct (copy_zero_set d au chi _ zero okk) as [[nub1 nzero] ok1] eqn:E1.
+    destruct (bn chi nzero nub1 ok1) as [rows1 ok2] eqn:E2.
+    assert (Hbn' : forall c, In c l -> bn_flag bn c /\ bn_good bn c) by (intros c Hc; apply Hbn; now right).
+    assert (Hf' : forall c, In c l -> node_ok c /\ dd d q (c_p c) <= c_pard c) by (intros c Hc; apply Hf; now right).
+    assert (Hcov' : forall c q' x, In c l -> In q' (lp c) -> needed q' x -> in_zero zero x)
+      by (intros c q' x Hc; apply Hcov; now right).
+    pose proof (bn_others_flag bn ub zero l (fun c Hc => proj1 (Hbn' c Hc)) _ _ _ E) as Hok2. subst ok2.
+    destruct (IH Hbn' Hf' Hq Hz Hcov' _ _ _ E) as [rows' [-> Hr']].
+    destruct (Hf chi (or_introl eq_refl)) as [Hchi Hpd].
+    destruct (Hbn chi (or_introl eq_refl)) as [Hfl Hgd].
+    pose proof (Hfl _ _ _ _ E2) as Hok1. subst ok1.
+    destruct (copy_zero_set_spec chi q zero _ okk nub1 nzero true E1 eq_refl Hchi Hq Hpd Hz) as [_ [Hnz Hcz]].
+    assert (Hr1 : rows_ok (below chi) rows1).
+    { apply (Hgd _ _ _ _ E2 Hnz). intros q' x Hq' Hn. apply (Hcz q' x Hq' Hn).
+      apply (Hcov chi q' x (or_introl eq_refl) Hq' Hn). }
+    exists (rows1 ++ rows'). split; [now rewrite app_assoc|].
+    apply rows_ok_app.
+    + apply (rows_ok_weaken (below chi)); [|assumption]. intros q0 H0. exists chi. split; [now left | exact H0].
+    + apply (rows_ok_weaken (below_some l)); [|assumption]. intros q0 [c [Hc H0]]. exists c. split; [now right | exact H0].
+Qed.
+
+Lemma size_child_le : forall chi l, In chi l -> (size chi <= fold_right (fun c a => (size c + a)%nat) O l)%nat.
+Proof.
+  intros chi l. induction l as [|a l IHl]; intros Hin; [destruct Hin|]. cbn [fold_right].
+  destruct Hin as [->|Hin]; [lia | specialize (IHl Hin); lia].
+Qed.
+
+Lemma brute_nearest_spec : forall n Q, (size Q <= n)%nat -> node_ok Q -> bn_good (brute_nearest d K au) Q.
+Proof.
+  induction n as [|n IH]; intros Q Hs HQ; [destruct Q; cbn [size] in Hs; lia|].
+  intros zero ub ok rows E Hz Hcov. destruct Q as [p m pd sc ch]. destruct ch as [|c0 rest].
+  - (* a leaf query: the final filter *)
+    cbn [brute_nearest] in E. injection E as <- E. apply andb_true_iff in E. destruct E as [_ Hau].
+    intros q' cands [Hin|[]]. unfold final_row in Hin. cbn [c_p] in Hin. injection Hin as <- <-.
+    split; [now left|]. intros x Hn.
+    destruct (Hcov p x (or_introl eq_refl) Hn) as [e [He Hx]].
+    destruct (Hz e He) as [Hl [Hdist Hen]]. rewrite (lp_leaf _ Hl) in Hx. destruct Hx as [<-|[]].
+    apply in_map_iff. exists e. split; [reflexivity|]. apply filter_In. split; [assumption|].
+    destruct (le_e (fst e) (ub0 ub)) eqn:Hle; [reflexivity|exfalso].
+    apply le_e_false in Hle. destruct Hle as [v [Hv Hlt]].
+    unfold valid_b in Hau. rewrite Hv in Hau. cbn [c_p] in Hau, Hdist. apply Nat.leb_le in Hau.
+    apply (far_not_needed p (c_p (snd e)) v Hau); [lia | exact Hn].
+  - cbn [brute_nearest] in E.
+    destruct (brute_nearest d K au c0 zero ub ok) as [rows0 ok0] eqn:E0.
+    cbn [size fold_right] in Hs.
+    destruct (inv_children _ _ _ _ _ _ (proj1 HQ)) as [Hp Hch].
+    assert (Hsz : forall chi, In chi rest -> (size chi <= n)%nat).
+    { intros chi Hc. pose proof (size_child_le chi rest Hc). lia. }
+    assert (Hok : forall chi, In chi (c0 :: rest) -> node_ok chi).
+    { intros chi Hc. apply (node_ok_child (CN p m pd sc (c0 :: rest)) chi HQ). exact Hc. }
+    assert (Hrest : forall chi, In chi rest ->
+              bn_flag (fun c z u o => brute_nearest d K au c z u o) chi /\
+              bn_good (fun c z u o => brute_nearest d K au c z u o) chi).
+    { intros chi Hc. split.
+      - apply (brute_nearest_flag n). now apply Hsz.
+      - apply (IH chi); [now apply Hsz | apply Hok; now right]. }
+    pose proof (bn_others_flag _ ub zero rest (fun c Hc => proj1 (Hrest c Hc)) _ _ _ E) as Hok0. subst ok0.
+    assert (Hf : forall chi, In chi rest -> node_ok chi /\ dd d p (c_p chi) <= c_pard chi).
+    { intros chi Hc. split; [apply Hok; now right | apply (Hch chi); now right]. }
+    cbn [c_p] in Hz.
+    assert (Hcovr : forall chi q' x, In chi rest -> In q' (lp chi) -> needed q' x -> in_zero zero x).
+    { intros chi q' x Hc Hq' Hn. apply (Hcov q' x); [|assumption]. rewrite lp_inner. apply in_flat_map.
+      exists chi. split; [now right | assumption]. }
+    destruct (bn_others_spec _ p ub zero rest Hrest Hf (node_ok_dom _ HQ) Hz Hcovr _ _ _ E) as [rows' [-> Hr']].
+    assert (Hr0 : rows_ok (below c0) rows0).
+    { assert (Hs0 : (size c0 <= n)%nat) by lia.
+      apply (IH c0 Hs0 (Hok c0 (or_introl eq_refl)) zero ub ok rows0 E0).
+      - rewrite Hp. exact Hz.
+      - intros q' x Hq' Hn. apply (Hcov q' x); [|assumption]. rewrite lp_inner. apply in_flat_map.
+        exists c0. split; [now left | assumption]. }
+    apply rows_ok_app.
+    + apply (rows_ok_weaken (below c0)); [|assumption]. intros q0 H0. unfold below. rewrite lp_inner.
+      apply in_flat_map. exists c0. split; [now left | exact H0].
+    + apply (rows_ok_weaken (below_some rest)); [|assumption]. intros q0 [c [Hc H0]]. unfold below. rewrite lp_inner.
+      apply in_flat_map. exists c. split; [now right | exact H0].
+Qed.
+
+(* ---------- internal_batch_nearest_neighbor ---------- *)
+Lemma descend_loop_flag : forall Q l s0, ds_ok (descend_loop d au Q l s0) = true -> ds_ok s0 = true.
+Proof.
+  intros Q l. induction l as [|[s' [pd' par']] l IHl]; intros s0 H0; cbn [descend_loop] in H0; [assumption|].
+  apply IHl in H0. unfold descend_parent in H0.
+  destruct (le_e pd' _).
+  - destruct (c_ch par') as [|c0 r0]; [cbn [ds_ok] in H0; discriminate|].
+    apply descend_children_flag in H0. rewrite descend_first_flag in H0.
+    apply andb_true_iff in H0. apply H0.
+  - cbn [ds_ok] in H0. apply andb_true_iff in H0. apply H0.
+Qed.
+
+Lemma descend_flag : forall Q cs ub ms cover zero ok,
+  ds_ok (descend d au Q cs (DS ub ms cover zero ok)) = true -> ok = true.
+Proof.
+  intros Q cs ub ms cover zero ok H. unfold descend in H. cbn [ds_ok] in H.
+  apply descend_loop_flag in H. exact H.
+Qed.
+
+Definition rec_t := ctree -> list centry -> list dnode -> nat -> nat -> list ext -> bool -> option (list row * bool).
+
+Lemma ib_loop_cons : forall (rec : rec_t) ub cover zero cs ms chi l acc okk,
+  ib_loop d K au rec ub cover zero cs ms (chi :: l) acc okk =
+  let nub := setter K (eadd (ub0 ub) (c_pard chi)) in
+  let '(nub1, nzero, ok1) := copy_zero_set d au chi nub zero okk in
+  let '(nub2, ncover, ok2) := copy_cover_sets d au chi nub1 cs (S ms - cs) cover ok1 in
+  match rec chi ncover nzero cs ms nub2 ok2 with
+  | None => None
+  | Some (rows1, ok3) => ib_loop d K au rec ub cover zero cs ms l (acc ++ rows1) ok3
+  end.
+Proof. reflexivity. Qed.
+
+Definition rec_flag (rec : rec_t) (chi : ctree) : Prop :=
+  forall cv z cs ms u o rows, rec chi cv z cs ms u o = Some (rows, true) -> o = true.
+
+Lemma ib_loop_flag : forall (rec : rec_t) ub cover zero cs ms l,
+  (forall chi, In chi l -> rec_flag rec chi) ->
+  forall acc okk rows, ib_loop d K au rec ub cover zero cs ms l acc okk = Some (rows, true) -> okk = true.
+Proof.
+  intros rec ub cover zero cs ms l. induction l as [|chi l IH]; intros Hrec acc okk rows E.
+  - cbn in E. now injection E.
+  - rewrite ib_loop_cons in E. cbv zeta in E.
+    destruct (copy_zero_set d au chi _ zero okk) as [[nub1 nzero] ok1] eqn:E1.
+    destruct (copy_cover_sets d au chi nub1 cs (S ms - cs) cover ok1) as [[nub2 ncover] ok2] eqn:E2.
+    destruct (rec chi ncover nzero cs ms nub2 ok2) as [[rows1 ok3]|] eqn:E3; [|discriminate].
+    apply IH in E; [|intros c Hc; apply Hrec; now right]. subst ok3.
+    apply (Hrec chi (or_introl eq_refl)) in E3. subst ok2.
+    apply copy_cover_sets_flag in E2. subst ok1. now apply copy_zero_set_flag in E1.
+Qed.
+
+Lemma internal_batch_flag : forall fuel Q, rec_flag (internal_batch d K au fuel) Q.
+Proof.
+  induction fuel as [|f IH]; intros Q cover zero cs ms ub ok rows E; [discriminate|].
+  cbn [internal_batch] in E.
+  destruct (Nat.ltb ms cs).
+  - injection E as E. apply (brute_nearest_flag (size Q) Q (Nat.le_refl _)) in E. exact E.
+  - destruct (Nat.leb (c_scale Q) cs && negb (Nat.eqb (c_scale Q) 100)).
+    + destruct (c_ch Q) as [|c0 rest]; [discriminate|].
+      destruct (ib_loop d K au (internal_batch d K au f) ub cover zero cs ms rest [] ok) as [[rows1 ok1]|] eqn:E1;
+        [|discriminate].
+      destruct (internal_batch d K au f c0 cover zero cs ms ub ok1) as [[rows0 ok2]|] eqn:E0; [|discriminate].
+      injection E as _ ->. apply IH in E0. subst ok1.
+      apply (ib_loop_flag _ ub cover zero cs ms rest (fun c _ => IH c)) in E1. exact E1.
+    + apply IH in E. now apply descend_flag in E.
+Qed.
+
+Definition rec_good (rec : rec_t) (chi : ctree) : Prop :=
+  forall cv z cs ms u o rows, rec chi cv z cs ms u o = Some (rows, true) ->
+    zero_ok (c_p chi) z -> cover_ok (c_p chi) cs ms cv -> cov_inv chi cv z cs -> rows_ok (below chi) rows.
+
+Lemma ib_loop_spec : forall (rec : rec_t) q ub cover zero cs ms l,
+  (forall chi, In chi l -> rec_flag rec chi /\ rec_good rec chi) ->
+  (forall chi, In chi l -> node_ok chi /\ dd d q (c_p chi) <= c_pard chi) -> dom q ->
+  zero_ok q zero -> cover_ok q cs ms cover -> (cs <= ms)%nat ->
+  (forall chi q' x, In chi l -> In q' (lp chi) -> needed q' x -> covered cover zero cs x) ->
+  forall acc okk rows, ib_loop d K au rec ub cover zero cs ms l acc okk = Some (rows, true) ->
+  exists rows', rows = acc ++ rows' /\ rows_ok (below_some l) rows'.
+Proof.
+  intros rec q ub cover zero cs ms l. induction l as [|chi l IH]; intros Hrec Hf Hq Hz Hc Hcs Hcov acc okk rows E.
+  - cbn in E. injection E as <-. exists []. split; [now rewrite app_nil_r|]. intros q' cands [].
+  - rewrite ib_loop_cons in E. cbv zeta in E.
+    destruct (copy_zero_set d au chi _ zero okk) as [[nub1 nzero] ok1] eqn:E1.
+    destruct (copy_cover_sets d au chi nub1 cs (S ms - cs) cover ok1) as [[nub2 ncover] ok2] eqn:E2.
+    destruct (rec chi ncover nzero cs ms nub2 ok2) as [[rows1 ok3]|] eqn:E3; [|discriminate].
+    assert (Hrec' : forall c, In c l -> rec_flag rec c /\ rec_good rec c) by (intros c Hc'; apply Hrec; now right).
+    assert (Hf' : forall c, In c l -> node_ok c /\ dd d q (c_p c) <= c_pard c) by (intros c Hc'; apply Hf; now right).
+    assert (Hcov' : forall c q' x, In c l -> In q' (lp c) -> needed q' x -> covered cover zero cs x)
+      by (intros c q' x Hc'; apply Hcov; now right).
+    pose proof (ib_loop_flag rec ub cover zero cs ms l (fun c Hc' => proj1 (Hrec' c Hc')) _ _ _ E) as Hok3. subst ok3.
+    destruct (IH Hrec' Hf' Hq Hz Hc Hcs Hcov' _ _ _ E) as [rows' [-> Hr']].
+    destruct (Hf chi (or_introl eq_refl)) as [Hchi Hpd].
+    destruct (Hrec chi (or_introl eq_refl)) as [Hfl Hgd].
+    pose proof (Hfl _ _ _ _ _ _ _ E3) as Hok2. subst ok2.
+    pose proof (copy_cover_sets_flag _ _ _ _ _ _ _ _ E2) as Hok1. subst ok1.
+    destruct (copy_zero_set_spec chi q zero _ okk nub1 nzero true E1 eq_refl Hchi Hq Hpd Hz) as [_ [Hnz Hcz]].
+    assert (Hcr : forall s' dist m0, In (s', (dist, m0)) cover -> (cs <= s' < cs + (S ms - cs))%nat ->
+                  dist = dd d q (c_p m0) /\ node_ok m0).
+    { intros s' dist m0 Hin Hr. destruct (Hc s' dist m0 Hin (proj1 Hr)) as [_ [_ [_ [H4 H5]]]]. now split. }
+    destruct (copy_cover_sets_spec chi q cover (S ms - cs) cs nub1 true nub2 ncover true E2 eq_refl Hchi Hq Hpd Hcr)
+      as [_ [Hfrom Hcc]].
+    assert (Hnc : cover_ok (c_p chi) cs ms ncover).
+    { intros s' dist m0 Hin Hs. destruct (Hfrom s' dist m0 Hin) as [Hr [Hd [dist0 Hin0]]].
+      destruct (Hc s' dist0 m0 Hin0 Hs) as [_ [H2 [H3 [_ H5]]]].
+      split; [lia|]. split; [assumption|]. split; [assumption|]. now split. }
+    assert (Hr1 : rows_ok (below chi) rows1).
+    { apply (Hgd _ _ _ _ _ _ _ E3 Hnz Hnc). intros q' x Hq' Hn.
+      destruct (Hcov chi q' x (or_introl eq_refl) Hq' Hn) as [H|[s' [dist [m0 [Hin [Hs Hx]]]]]].
+      - left. now apply (Hcz q' x Hq' Hn).
+      - right. apply (Hcc q' x Hq' Hn). exists s', dist, m0. split; [assumption|]. split; [|assumption].
+        destruct (Hc s' dist m0 Hin Hs) as [H1 _]. lia. }
+    exists (rows1 ++ rows'). split; [now rewrite app_assoc|].
+    apply rows_ok_app.
+    + apply (rows_ok_weaken (below chi)); [|assumption]. intros q0 H0. exists chi. split; [now left | exact H0].
+    + apply (rows_ok_weaken (below_some l)); [|assumption]. intros q0 [c [Hc' H0]]. exists c. split; [now right | exact H0].
+Qed.
+
+Lemma internal_batch_spec : forall fuel Q, node_ok Q -> rec_good (internal_batch d K au fuel) Q.
+Proof.
+  induction fuel as [|f IH]; intros Q HQ cover zero cs ms ub ok rows E Hz Hc Hcov; [discriminate|].
+  cbn [internal_batch] in E.
+  destruct (Nat.ltb ms cs) eqn:Hlt.
+  - (* all remaining samples are in the zero set *)
+    injection E as E. apply Nat.ltb_lt in Hlt.
+    apply (brute_nearest_spec (size Q) Q (Nat.le_refl _) HQ zero ub ok rows E Hz).
+    intros q' x Hq' Hn. destruct (Hcov q' x Hq' Hn) as [H|[s [dist [n [Hin [Hs _]]]]]]; [assumption|].
+    destruct (Hc s dist n Hin Hs) as [H1 _]. lia.
+  - apply Nat.ltb_ge in Hlt.
+    destruct (Nat.leb (c_scale Q) cs && negb (Nat.eqb (c_scale Q) 100)).
+    + (* the query node is split among its children *)
+      destruct Q as [p m pd sc ch]. cbn [c_ch] in E. destruct ch as [|c0 rest]; [discriminate|].
+      destruct (ib_loop d K au (internal_batch d K au f) ub cover zero cs ms rest [] ok) as [[rows1 ok1]|] eqn:E1;
+        [|discriminate].
+      destruct (internal_batch d K au f c0 cover zero cs ms ub ok1) as [[rows0 ok2]|] eqn:E0; [|discriminate].
+      injection E as <- ->.
+      pose proof (internal_batch_flag f c0 _ _ _ _ _ _ _ E0) as Hok1. subst ok1.
+      destruct (inv_children _ _ _ _ _ _ (proj1 HQ)) as [Hp Hch].
+      assert (Hok : forall chi, In chi (c0 :: rest) -> node_ok chi).
+      { intros chi Hc'. apply (node_ok_child (CN p m pd sc (c0 :: rest)) chi HQ). exact Hc'. }
+      cbn [c_p] in Hz, Hc.
+      assert (Hrec : forall chi, In chi rest ->
+                rec_flag (internal_batch d K au f) chi /\ rec_good (internal_batch d K au f) chi).
+      { intros chi Hc'. split; [apply internal_batch_flag | apply IH; apply Hok; now right]. }
+      assert (Hf : forall chi, In chi rest -> node_ok chi /\ dd d p (c_p chi) <= c_pard chi).
+      { intros chi Hc'. split; [apply Hok; now right | apply (Hch chi); now right]. }
+      assert (Hcovr : forall chi q' x, In chi rest -> In q' (lp chi) -> needed q' x -> covered cover zero cs x).
+      { intros chi q' x Hc' Hq' Hn. apply (Hcov q' x); [|assumption]. rewrite lp_inner. apply in_flat_map.
+        exists chi. split; [now right | assumption]. }
+      destruct (ib_loop_spec _ p ub cover zero cs ms rest Hrec Hf (node_ok_dom _ HQ) Hz Hc Hlt Hcovr _ _ _ E1)
+        as [rows' [-> Hr']]. cbn [app].
+      assert (Hr0 : rows_ok (below c0) rows0).
+      { apply (IH c0 (Hok c0 (or_introl eq_refl)) cover zero cs ms ub true rows0 E0).
+        - rewrite Hp. exact Hz.
+        - rewrite Hp. exact Hc.
+        - intros q' x Hq' Hn. apply (Hcov q' x); [|assumption]. rewrite lp_inner. apply in_flat_map.
+          exists c0. split; [now left | assumption]. }
+      apply rows_ok_app.
+      * apply (rows_ok_weaken (below_some rest)); [|assumption]. intros q0 [c [Hc' H0]]. unfold below. rewrite lp_inner.
+        apply in_flat_map. exists c. split; [now right | exact H0].
+      * apply (rows_ok_weaken (below c0)); [|assumption]. intros q0 H0. unfold below. rewrite lp_inner.
+        apply in_flat_map. exists c0. split; [now left | exact H0].
+    + (* one more scale of the cover sets *)
+      pose proof (internal_batch_flag f Q _ _ _ _ _ _ _ E) as Hok'.
+      destruct (descend_spec Q cs ub ms cover zero ok Hok' HQ Hz Hc Hcov) as [_ [Hz' [Hc' Hcov']]].
+      apply (IH Q HQ _ _ _ _ _ _ _ E Hz' Hc' Hcov').
+Qed.
+
+(* ---------- the whole query ---------- *)
+Lemma ct_query_spec : forall fuel top rows,
+  ct_query d K au fuel top = Some (rows, true) ->
+  node_ok top -> is_leaf top = false -> incl pts (lp top) ->
+  rows_ok (below top) rows.
+Proof.
+  intros fuel top rows E Htop Hnl Hall. unfold ct_query in E.
+  apply (internal_batch_spec fuel top Htop _ _ _ _ _ _ _ E).
+  - apply zero_ok_nil.
+  - intros s dist n [Hin|[]] _. injection Hin as <- <- <-.
+    split; [lia|]. split; [assumption|]. split; [lia|]. split; [reflexivity | assumption].
+  - intros q' x _ [Hx _]. right. exists O, (dd d (c_p top) (c_p top)), top.
+    split; [now left|]. split; [lia | now apply Hall].
+Qed.
+
 End Complete.
+
+(* ---------- closed statement ---------- *)
+Theorem ct_query_complete_partial_lemma : forall d dom top K fuel rows,
+  metric_on dom d -> (forall x, In x (leaf_points top) -> dom x) ->
+  ct_inv_b d top = true -> is_leaf top = false ->
+  ct_query d K (valid_b d (leaf_points top) K) fuel top = Some (rows, true) ->
+  forall q cands, In (q, cands) rows ->
+    In q (leaf_points top) /\
+    forall x, In x (leaf_points top) ->
+      (length (filter (fun y => (dd d q y <? dd d q x)%Z) (leaf_points top)) < K)%nat -> In x cands.
+Proof.
+  intros d dom top K fuel rows Hm Hdom Hinv Hnl E q cands Hin.
+  destruct (dd_metric dom d Hm) as [Hs Ht].
+  assert (Htop : node_ok d (leaf_points top) top) by (split; [assumption | apply incl_refl]).
+  destruct (ct_query_spec d (leaf_points top) K dom Hs Ht Hdom fuel top rows E Htop Hnl (incl_refl _) q cands Hin)
+    as [Hq Hc].
+  split; [exact Hq|]. intros x Hx Hcnt. apply Hc. split; assumption.
+Qed.
+
+(* ---------- a real tree for the non-vacuity examples: the cover tree tapkee builds for the 3x3
+   integer grid under the L1 metric (dumped by harness/c02.cpp) ---------- *)
+Definition grid9_d : dist := fun i j => Z.abs (i / 3 - j / 3) + Z.abs (i mod 3 - j mod 3).
+Definition grid9_ctree : ctree :=
+  CN 0 4 0 1 [CN 0 2 0 3 [CN 0 1 0 6 [CN 0 0 0 100 []; CN 3 0 1 100 []; CN 1 0 1 100 []];
+                          CN 6 0 2 100 []; CN 4 0 2 100 []; CN 2 0 2 100 []];
+              CN 7 2 3 3 [CN 7 1 0 6 [CN 7 0 0 100 []; CN 8 0 1 100 []]; CN 5 0 2 100 []]].
